@@ -5,6 +5,7 @@ import (
 	"fmt"
 	"strings"
 	"sync"
+	"sync/atomic"
 	"time"
 
 	"github.com/indexsupply/shovel/jrpc2"
@@ -113,6 +114,82 @@ func genStressRL(seed uint64) lib.Case {
 		Size:       1000, // prefer any other failing case as the reported one
 	}
 	stat("stress-rl:trials:" + fmt.Sprint(len(tried)))
+	if len(fails) > 0 {
+		c.OracleMsg = strings.Join(fails, "; ")
+	}
+	return c
+}
+
+// stress-tr: a caller holds the blocks of a trace plan (one transaction with
+// very many trace actions) and reads them, as dig does, while a second caller
+// with a trace plan re-attaches the traces of the same cached block.  If
+// traces() publishes the new slice before it is filled (`tx.TraceActions =
+// make(n)` followed by assignments in place) the first caller sees trace
+// actions that are not the transaction's (zero values).  Like stress-rl this
+// stream only searches for a failing schedule.
+func stressTraceOnce(chain cachesim.Chain, n int) (seen int, err error) {
+	srv := cachesim.NewServer(chain)
+	defer srv.Close()
+	c := jrpc2.New(srv.URL()).WithMaxReads(20)
+	f := &glf.Filter{UseHeaders: true, UseTraces: true}
+	ctx := context.Background()
+	bs, err := c.Get(ctx, srv.URL(), f, 0, 1)
+	if err != nil {
+		return 0, err
+	}
+	var stop int32
+	var wg sync.WaitGroup
+	wg.Add(1)
+	go func() { // the first caller consumes its result
+		defer wg.Done()
+		for atomic.LoadInt32(&stop) == 0 {
+			tas := bs[0].Txs[0].TraceActions
+			if len(tas) != n {
+				seen++
+				continue
+			}
+			for i := len(tas) - 1; i >= 0; i -= 997 {
+				if len(tas[i].From) == 0 || tas[i].CallType == "" {
+					seen++
+					break
+				}
+			}
+		}
+	}()
+	_, err = c.Get(ctx, srv.URL(), f, 0, 1)
+	atomic.StoreInt32(&stop, 1)
+	wg.Wait()
+	return seen, err
+}
+
+func genStressTR(seed uint64) lib.Case {
+	n := 30000
+	tx := cachesim.Tx{Idx: 0, Hash: 21}
+	for i := 0; i < n; i++ {
+		tx.Traces = append(tx.Traces, uint64(100+2*i))
+	}
+	chain := cachesim.Chain{cachesim.Block{Hash: 11, Time: 5, Txs: []cachesim.Tx{tx}}}
+	var fails []string
+	trials := 0
+	for trials < 4 && len(fails) == 0 {
+		trials++
+		seen, err := stressTraceOnce(chain, n)
+		if err != nil {
+			fails = append(fails, "trace plan failed: "+err.Error())
+		} else if seen > 0 {
+			fails = append(fails, fmt.Sprintf("a caller reading the blocks of its trace plan saw incomplete trace actions (zero values) %d times while a second trace plan attached to the same cached block (%d trace actions in one tx)", seen, n))
+		}
+	}
+	c := lib.Case{
+		Coq: "CConcGet [] []",
+		Desc: desc{Kind: "stress-tr", Seed: seed, Info: map[string]any{"ntraces": n,
+			"site": "jrpc2.traces on a shared cached block, reader without the block lock"}},
+		Kind:       "stress-tr",
+		Nontrivial: true,
+		OracleOK:   len(fails) == 0,
+		Size:       1001,
+	}
+	stat("stress-tr:trials:" + fmt.Sprint(trials))
 	if len(fails) > 0 {
 		c.OracleMsg = strings.Join(fails, "; ")
 	}
